@@ -51,6 +51,14 @@ func (c *VC) ghostBuiltin(st *State, name string, call *ast.CallExpr) []*Term {
 		t := c.evalCond(st, call.Args[0])
 		st.pc = mkAnd(st.pc, t)
 		return nil
+	case "ensuresTrusted":
+		// assumed at call sites, NOT checked on the function itself (a definitional / trusted clause)
+		if run != nil && run.phase == 2 && run.asCallee {
+			t := c.evalCond(st, call.Args[0])
+			run.onEns(text, call.Pos(), st, t)
+			c.assumptions["TRUSTED postcondition (assumed, not checked on the body): "+text] = true
+		}
+		return nil
 	case "ensures", "assert", "ensuresGoal":
 		if run != nil {
 			if name == "ensuresGoal" && run.asCallee {
